@@ -273,6 +273,11 @@ class JetPool(Pool):
                         z0 = self.values[E][name][c]
                         if self.mode == "spatial":
                             ents.append(f"{_seq(c)} :> {bd_tla(z0, self.d1[E][name][c + (a,)], self.d1[E][name][c + (b,)], self.d2[E][name][c + (a, b)])}")
+                        elif name == getattr(self, "seed_term", None):
+                            # the differentiation variable is this terminal: component number a is
+                            # seeded with s, component number b with t
+                            k = comps(shape).index(tuple(c))
+                            ents.append(f"{_seq(c)} :> {bd_tla(z0, 1 if k == a else 0, 1 if k == b else 0, 0)}")
                         else:
                             ents.append(f"{_seq(c)} :> {bd_tla(z0)}")
                     tabs.append("(" + " @@ ".join(ents) + ")")
